@@ -576,6 +576,9 @@ func famHostileMutate(k *mon.Case) {
 	k.Desc(describe(cmd, pver, enc, class, b))
 	acc := offerPayload(k, cmd, b, pver, enc, nets[r.Intn(len(nets))])
 	k.Count("mutate.class."+class, 1)
+	if k.Index%7 == 0 {
+		k.Sample(map[string]any{"family": "hostile.mutate", "cmd": cmd, "pver": pver, "enc": encName(enc), "class": class, "accepted": acc, "input": hexN(b, 96)})
+	}
 	k.Eval(sigHostile("mut", cmd, class, acc, b), true)
 }
 
